@@ -11,7 +11,9 @@ PROPERTY = 'C02'
 LEVEL = 'exploration'
 RULE = (
     'enum: every string of length <= 4 (quick) / <= 5 (thorough) over the 19-symbol escape alphabet, each run with '
-    'multiline in {False, True} and two tokenizer option sets; random: Hypothesis text (<= 300 chars) mixing all Unicode '
+    'multiline in {False, True}, two tokenizer option sets and chunked deliveries (fixed blocks; per character and blocks '
+    'with zero-length chunks at every cut point); long: a short generated unit (with escapes) repeated to lengths around '
+    '4096/8192/12288/16384/65536 and random lengths 8192..40000, as str, in blocks and embedded in a KeyValues line; random: Hypothesis text (<= 300 chars) mixing all Unicode '
     'scalar values with that alphabet; embed: generated KeyValues/VMF/BSP-entity/DMX-KV2 style lines holding several '
     'escaped strings between operators, bare words, flags and comments, tokenized with the option set that format\'s '
     'parser uses. non-trivial = a string contains a character that must be escaped (" \\ CR LF TAB \\v \\b \\f \\a); '
@@ -82,7 +84,15 @@ def check_string(ctx, s: str, multiline: bool, opts: dict, tag: str) -> None:
         tok.allow_escapes = True
     elif opts.get('_blocks'):
         n = opts['_blocks']
-        tok = Tokenizer([text[i:i + n] for i in range(0, len(text), n)], **{k: v for k, v in opts.items() if k != '_blocks'})
+        chunks = [text[i:i + n] for i in range(0, len(text), n)]
+        if opts.get('_empties'):
+            # a zero-length chunk at EVERY cut point (a read() that returned nothing, an empty line of a list ...), two at
+            # every third: for blocks of 1 that is an empty chunk between any two characters of the text
+            spaced = ['']
+            for i, c in enumerate(chunks):
+                spaced += [c, ''] if i % 3 else [c, '', '']
+            chunks = spaced
+        tok = Tokenizer(chunks, **{k: v for k, v in opts.items() if k not in ('_blocks', '_empties')})
     else:
         tok = Tokenizer(text, **opts)
     got = list(tok)     # iteration stops at the first EOF
@@ -138,6 +148,13 @@ def execute_string(desc, ctx):
         if len(s) >= 2:
             for n in (2, 3, 5):
                 check_string(ctx, s, multiline, {'allow_escapes': True, '_blocks': n}, f'text-delivered-in-blocks-of-{n}')
+        if s:
+            ctx.label('delivery:empty_chunk_at_every_cut')
+            check_string(ctx, s, multiline, {'allow_escapes': True, '_blocks': 1, '_empties': True},
+                         'text-delivered-per-character-with-empty-chunks-between')
+            if len(s) >= 3:
+                check_string(ctx, s, multiline, {'allow_escapes': True, '_blocks': 2 + len(s) % 3, '_empties': True},
+                             'text-delivered-in-blocks-with-empty-chunks-between')
 
 
 # ------------------------------------------------------------------ (b) random
@@ -170,6 +187,87 @@ def string_strategy(max_size: int = 300):
 
 def random_cases(tier: str):
     return st.fixed_dictionaries({'s': string_strategy(300)})
+
+
+# ------------------------------------------------------------------ (b2) long strings at size boundaries
+
+# Lengths around the powers of two where an implementation might flush / re-allocate / switch representation.
+BOUNDARIES = [4096, 8192, 12288, 16384, 65536]
+LONG_UNITS = ['a', 'ab\\"\n', '\\', '"', '\r\n', 'x\ty\\n', '\n', "'\a\b\f\v", 'é\\\U0001f600"', 'abcdefg']
+
+
+def build_long(desc) -> str:
+    """prefix + the unit repeated and cut to exactly n characters (a pure function of the descriptor)."""
+    unit = desc['unit'] or 'a'
+    n = desc['n']
+    body = unit * (n // len(unit) + 1)
+    return (desc['prefix'] + body)[:n]
+
+
+def long_fixed(tier: str):
+    """Every boundary -1/0/+1 with a unit that needs escaping - always run, so the class never depends on sampling."""
+    for b in BOUNDARIES:
+        for d in (-1, 0, 1):
+            yield {'unit': LONG_UNITS[1] if d else LONG_UNITS[5], 'n': b + d, 'prefix': 'HEAD\\"', 'block': 4096}
+    yield {'unit': '\\', 'n': 2048, 'prefix': '', 'block': 0}      # escaped form is exactly 4096
+    yield {'unit': '"\\', 'n': 4096, 'prefix': '', 'block': 1024}  # escaped form is exactly 8192
+    yield {'unit': 'a\n', 'n': 20000, 'prefix': '>', 'block': 0}
+
+
+def long_cases(tier: str):
+    n = st.one_of(
+        st.tuples(st.sampled_from(BOUNDARIES[:4]), st.integers(-2, 2)).map(sum),
+        st.tuples(st.sampled_from(BOUNDARIES[:4]), st.integers(-2, 2)).map(sum),
+        st.tuples(st.sampled_from([2048, 2730, 4096, 8192, 5461]), st.integers(-2, 2)).map(sum),   # escaped form at a boundary
+        st.integers(8192, 40000),
+        st.tuples(st.just(65536), st.integers(-2, 2)).map(sum),
+    )
+    unit = st.one_of(st.sampled_from(LONG_UNITS), st.text(char_strategy(), min_size=1, max_size=12),
+                     st.text(st.sampled_from(ALPHABET), min_size=1, max_size=6))
+    return st.fixed_dictionaries({
+        'unit': unit, 'n': n, 'prefix': st.text(char_strategy(), max_size=5),
+        'block': st.sampled_from([0, 0, 1000, 4096, 8192]),
+    })
+
+
+def execute_long(desc, ctx):
+    from srctools.keyvalues import Keyvalues
+    from srctools.tokenizer import escape_text
+    s = build_long(desc)
+    n = len(s)
+    for b in BOUNDARIES:
+        if abs(n - b) <= 2:
+            ctx.label(f'long:{b}+-2')
+    if n >= 8192:
+        ctx.label('long:>=8192')
+    if n >= 12288:
+        ctx.label('long:>=12288')
+    if n > 16384:
+        ctx.label('long:>16384')
+    esc = n + sum(1 for ch in s if ch in MUST_ESCAPE or ch == "'")      # own count of the escaped length
+    if any(abs(esc - b) <= 2 for b in BOUNDARIES) or any(abs(esc - 2 * b) <= 2 for b in BOUNDARIES):
+        ctx.label('long:escaped_form_at_boundary')
+    ctx.nontrivial(n >= 4094 and not MUST_ESCAPE.isdisjoint(s))
+    block = desc['block']
+    for multiline in (False, True):
+        check_string(ctx, s, multiline, {'allow_escapes': True}, f'long({n})')
+        if block:
+            ctx.label('long:delivered_in_blocks')
+            check_string(ctx, s, multiline, {'allow_escapes': True, '_blocks': block, '_empties': block == 1000},
+                         f'long({n})-in-blocks-of-{block}')
+    if n <= 20000:
+        # ... and embedded as the value of a KeyValues line between other strings
+        ctx.label('long:embedded_kv_value')
+        multiline = bool(n % 2)
+        text = f'"Block"\n{{\n\t"before" "1"\n\t"key" "{escape_text(s, multiline)}"\n\t"after" "2"\n}}\n'
+        root = Keyvalues.parse(text)
+        got = [[blk.real_name, [[c.real_name, c.value] for c in blk]] for blk in root]
+        want = [['Block', [['before', '1'], ['key', s], ['after', '2']]]]
+        if got != want:
+            gv = got[0][1][1][1] if len(got) == 1 and len(got[0][1]) == 3 and isinstance(got[0][1][1][1], str) else None
+            ctx.fail('embedded_kvparse', f'long value of {n} characters (unit {desc["unit"]!r}) embedded in a KeyValues line: '
+                     + (f'read back {len(gv)} characters, head {gv[:40]!r} want head {s[:40]!r}' if gv is not None
+                        else f'tree shape differs: {str(got)[:300]!r}'), multiline=multiline)
 
 
 # ------------------------------------------------------------------ (c) embedding
@@ -291,8 +389,17 @@ def execute_embed(desc, ctx):
     if any((k == 'nl' and v == '\r') or k == 'crq' for k, v in items):
         ctx.label('bare_cr_line_ending')
     block = 2 + len(text) % 9          # the same text also as fixed-size blocks (file.read(N)) and per character
-    deliveries = [('str', text), (f'blocks-of-{block}', [text[i:i + block] for i in range(0, len(text), block)]),
-                  ('chars', list(text))]
+    blocks = [text[i:i + block] for i in range(0, len(text), block)]
+    chars_spaced = ['']
+    for ch in text:
+        chars_spaced += [ch, '']
+    blocks_spaced = []
+    for i, b in enumerate(blocks):
+        blocks_spaced += [b, ''] if i % 2 else [b, '', '']
+    deliveries = [('str', text), (f'blocks-of-{block}', blocks), ('chars', list(text)),
+                  # zero-length chunks at the cut points: between every two characters / between the blocks
+                  ('chars+empty-chunks', chars_spaced), (f'blocks-of-{block}+empty-chunks', iter(blocks_spaced))]
+    ctx.label('delivery:empty_chunk_at_every_cut')
     bare_cr = any((k == 'nl' and v == '\r') or k == 'crq' for k, v in items)
     if any(k == 'crq' and v[:1] == '\n' for k, v in items):
         ctx.label('string_starting_with_LF_after_bare_CR')
@@ -340,12 +447,17 @@ def execute_kvparse(desc, ctx):
 SUBCHECKS = [
     Sub('enum', execute_string, enumerate=enum_cases, quick_shards=16, thorough_shards=64, floor=100000,
         must_hit=('trailing_backslash', 'backslash_then_linebreak', 'backslash_then_escape_letter', 'crlf', 'lone_cr',
-                  'has_quote')),
+                  'has_quote', 'delivery:empty_chunk_at_every_cut')),
     Sub('random', execute_string, strategy=random_cases, quick=20000, thorough=500000, quick_shards=16,
         floor=2000, must_hit=('non_ascii', 'astral', 'len>64', 'has_backslash', 'has_quote', 'crlf', 'trailing_backslash')),
+    Sub('long', execute_long, strategy=long_cases, fixed=long_fixed, quick=192, thorough=6000, quick_shards=16, floor=60,
+        must_hit=('long:4096+-2', 'long:8192+-2', 'long:12288+-2', 'long:16384+-2', 'long:65536+-2', 'long:>=8192',
+                  'long:>=12288', 'long:>16384', 'long:escaped_form_at_boundary', 'long:delivered_in_blocks',
+                  'long:embedded_kv_value')),
     Sub('embed', execute_embed, strategy=embed_cases, quick=8000, thorough=200000, quick_shards=16,
         floor=1000, must_hit=('fmt:kv', 'fmt:vmf', 'fmt:bsp', 'fmt:kv2', 'fmt:kvparse', 'multiline', 'singleline',
-                              'value_has_quote', 'value_trailing_backslash', 'value_has_linebreak', 'key_has_linebreak')),
+                              'value_has_quote', 'value_trailing_backslash', 'value_has_linebreak', 'key_has_linebreak',
+                              'delivery:empty_chunk_at_every_cut')),
 ]
 
 MATCHERS = {}
